@@ -27,7 +27,7 @@ func init() { vk.RegisterWorker("c17", worker) }
 
 func Main(prop, tier string) int {
 	r := vk.New("C17", tier)
-	r.Rule = "(a) totality: argument vectors of 1..8 words drawn from the full option vocabulary (every spelling in the parser, with = and separate-word values, glued short forms) x a value pool (edge numbers, %, empty, multi-byte, ranges, delimiters, colour/border/preview-window/bind fragments, garbage): ParseOptions must return (options | error) without panicking; (b) the built binary with the same vectors + --filter: exit 0/1, or 2 with a message, never a crash dump; (c) override law: parse(A + [o=v1] + B + [o=v2]) == parse(A + B + [o=v2]) structurally (function-valued and positional-index fields excluded) for last-one-wins options; (d) layering: options file < $FZF_DEFAULT_OPTS < argv; (e) --bind round trip: generated (keys, action list with arguments in every documented delimiter form able to carry them) parse to exactly those actions, in order, arguments byte-identical. distinct = (set of option spellings | delimiter forms + key kinds) signatures"
+	r.Rule = "(a) totality: argument vectors of 1..8 words drawn from the full option vocabulary (every spelling in the parser, with = and separate-word values, glued short forms) x a value pool (edge numbers, %, empty, multi-byte, ranges, delimiters, colour/border/preview-window/bind fragments, garbage): ParseOptions must return (options | error) without panicking; (b) the built binary with the same vectors + --filter: exit 0/1, or 2 with a message, never a crash dump; (c) override law: parse(A + [o=v1] + B + [o=v2]) == parse(A + B + [o=v2]) structurally (function-valued and positional-index fields excluded) for last-one-wins options (incl. --color values that name a base scheme, +2, --no-color), with canary command lines re-parsed in between: what a command line means must not depend on what the process parsed before (state leaking into built-in tables is an earlier occurrence that keeps its effect); (d) layering: options file < $FZF_DEFAULT_OPTS < argv; (e) --bind round trip: generated (keys, action list with arguments in every documented delimiter form able to carry them) parse to exactly those actions, in order, arguments byte-identical. distinct = (set of option spellings | delimiter forms + key kinds) signatures"
 	r.Assumptions = []string{"--man, --profile-*, --history (gets a scratch path) are excluded from process runs", "punctuation keys , : + are generated only in single-key bindings (their combination with other keys is undocumented)", "an argument in a paired/punctuation form does not contain its closer followed by + or ,; the trailing-colon form is last in the specification", "the expected expansion of an action name is its parse in isolation (compositionality is what is checked)"}
 	if _, err := fzfrun.Bin(); err != nil {
 		r.Inconclusive(err.Error())
@@ -310,6 +310,40 @@ var families = []family{
 	{name: "listen", members: [][]string{{"--listen=1234"}, {"--listen", "localhost:2345"}, {"--listen-unsafe=3456"}, {"--listen-unsafe", "0.0.0.0:4567"}, {"--no-listen"}, {"--no-listen-unsafe"}}},
 	{name: "history", members: [][]string{{"--history=" + histPath(1)}, {"--history", histPath(2)}, {"--no-history"}}},
 	{name: "preview", members: [][]string{{"--preview=echo {}"}, {"--preview", "cat {}"}, {"--no-preview"}}},
+	// a --color value that names a base scheme starts from that scheme again (man page: BASE_SCHEME), so these override each other
+	{name: "color", members: [][]string{{"--color=16,fg:1,bg:2"}, {"--color", "16"}, {"--color=dark,hl:3,fg:5"}, {"--color", "dark"}, {"--color=light,fg:4,pointer:6"}, {"--color=light"},
+		{"--color=bw"}, {"--color=16,border:7,prompt:1"}, {"--color=dark,bg:-1"}, {"--no-256"}, {"+2"}, {"--no-color"}}},
+}
+
+// canaries: command lines whose meaning must not depend on what this process parsed before (the defaults
+// file, $FZF_DEFAULT_OPTS and the command line are parsed one after the other in one process: state that
+// leaks from one parse into the built-in tables is an earlier occurrence that keeps its effect).
+var canaryVecs = [][]string{{}, {"--color=16"}, {"--color=dark"}, {"--color=light"}, {"--no-256"}, {"--color=bw"}, {"--bind", "a:up"}, {"--border"}, {"--preview-window=right"}, {"--walker=file"}, {"--style=full"}}
+var canaryBase []string
+var sinceCanary [][]string // command lines parsed since the canaries were last found intact
+
+func checkCanaries(r *vk.Run, after []string) bool {
+	first := canaryBase == nil
+	for i, v := range canaryVecs {
+		o, e, p, _ := safeParse(false, v)
+		d := ""
+		if p != nil || e != nil || o == nil {
+			d = fmt.Sprintf("error=%v panic=%v", e, p)
+		} else {
+			d = dumpOpts(o)
+		}
+		if first {
+			canaryBase = append(canaryBase, d)
+			continue
+		}
+		r.Count("canary_parses", 1)
+		if d != canaryBase[i] {
+			r.Violate(vk.Violation{Summary: fmt.Sprintf("C17: after parsing %d command lines in the same process (the last one %q; all of them in the witness), %q no longer means what it meant before: %s", len(sinceCanary), after, v, firstDiff(canaryBase[i], d)),
+				Witness: map[string]any{"parsed_since_the_canaries_were_intact": sinceCanary, "command_line": v, "difference": firstDiff(canaryBase[i], d)}})
+			return false
+		}
+	}
+	return true
 }
 
 func override(r *vk.Run, rng *rand.Rand) {
@@ -332,8 +366,19 @@ func override(r *vk.Run, rng *rand.Rand) {
 	long := concat(A, m1, B, m2)
 	short := concat(A, B, m2)
 	vk.SetCase(map[string]any{"long": long, "short": short})
-	o1, e1, p1, _ := safeParse(false, long)
+	if canaryBase == nil {
+		checkCanaries(r, nil)
+	}
 	o2, e2, p2, _ := safeParse(false, short)
+	o1, e1, p1, _ := safeParse(false, long)
+	sinceCanary = append(sinceCanary, short, long)
+	if f.name == "color" || rng.Intn(40) == 0 {
+		ok := checkCanaries(r, long)
+		sinceCanary = sinceCanary[:0]
+		if !ok {
+			return
+		}
+	}
 	r.Eval(1)
 	r.Count("override_pairs", 1)
 	if p1 != nil || p2 != nil {
